@@ -11,7 +11,7 @@
    names from the root).  The code's string test `p == b or p.startswith(b + sep)` is related to it by
    C10_prefix_with_sep_iff_component_prefix (string level, about renderings "/" + "/".join(names)). *)
 From Coq Require Import NArith List Bool Arith Lia.
-From IRV Require Import Base.Exn C10.Model C10.Proofs1 C10.Proofs2 C10.Proofs3 C10.Proofs4 C10.StrPrefix.
+From IRV Require Import Base.Exn C10.Model C10.Proofs1 C10.Proofs2 C10.Proofs3 C10.Proofs4 C10.Proofs5 C10.Proofs6 C10.StrPrefix.
 Import ListNotations.
 
 (* Key lemma 1: whenever the kernel resolves a path (all symlinks followed, from any cwd, through any
@@ -48,6 +48,19 @@ Theorem C10_contained :
   (exists suf, rp = rb ++ suf) /\ exists nl, get fs rp = Some (File ino nl data) /\ (nl <= 1)%N.
 Proof. exact contained_open. Qed.
 Print Assumptions C10_contained.
+
+(* For a relative location (the only kind ONNX allows) the resolvability of base_dir is not an assumption:
+   it follows from the open succeeding. *)
+Theorem C10_contained_relative_loc :
+  forall kf fs cwd pf base loc rp ino data a e,
+  get fs cwd = Some (Dir a e) -> Forall entry_name cwd ->
+  base <> [] -> isabs (parse loc) = false ->
+  check kf fs cwd pf base loc = Some (Ok tt) ->
+  kopen kf fs cwd base loc = Ok (rp, ino, data) ->
+  exists rb nb, kstr kf fs cwd (parse base) true = Some (rb, nb) /\
+    (exists suf, rp = rb ++ suf) /\ exists nl, get fs rp = Some (File ino nl data) /\ (nl <= 1)%N.
+Proof. exact contained_relative_loc. Qed.
+Print Assumptions C10_contained_relative_loc.
 
 (* the same for whatever the path resolves to (directory or file): used for "every other location raises" *)
 Theorem C10_contained_any :
@@ -94,21 +107,31 @@ Theorem C10_history_reads_contained :
 Proof. exact history_reads_contained. Qed.
 Print Assumptions C10_history_reads_contained.
 
-(* C10_load_sets_base, for the tensors load() visits (model.graph: initializers, node attributes,
-   subgraphs): for EVERY spelling p of the model path the base directory is dirname(p) or "." — never empty. *)
+(* C10_load_sets_base: for EVERY spelling p of the model path, every external tensor of the loaded model
+   (graph initializers, node attributes, subgraphs AND model-local functions — the latter since fix b3a8816)
+   gets base directory dirname(p) or "." — never empty ... *)
 Theorem C10_load_sets_base :
-  forall p m t, In t (m_graph (load_model p m)) -> t_base t = load_base p /\ t_base t <> [].
-Proof. exact load_sets_graph_base. Qed.
+  forall p m t, In t (m_graph (load_model p m) ++ m_funcs (load_model p m)) ->
+  t_base t = load_base p /\ t_base t <> [].
+Proof. exact load_sets_all_base. Qed.
 Print Assumptions C10_load_sets_base.
 
-(* ... but the full statement "every external tensor of a loaded model" is refuted by the code as it is:
-   tensors in attributes of nodes inside model.functions keep base_dir "" (known finding
-   load-function-tensors), and with an empty base_dir the check accepts every location. *)
-Theorem C10_load_function_tensors_refuted :
-  exists p m t, In t (m_funcs (load_model p m)) /\ t_base t = [].
-Proof. exact load_function_tensors_refuted. Qed.
-Print Assumptions C10_load_function_tensors_refuted.
+(* ... and that string denotes, for the kernel, the directory holding the model file's entry: if lstat of the
+   path p (whose last component is a proper name nm) finds the entry d/nm, then stat of the base directory
+   reaches exactly the directory d — through symlinked directories, "..", "//", relative to any cwd, and for
+   a bare file name (d = cwd).  load_base p = render (load_base_up p) is load_base_render. *)
+Theorem C10_load_base_is_model_dir :
+  forall kf fs cwd p init nm d x a e,
+  get fs cwd = Some (Dir a e) ->
+  snd (parse p) = init ++ [nm] -> good nm ->
+  kstr kf fs cwd (parse p) false = Some (d ++ [nm], x) ->
+  exists k ents, kstr kf fs cwd (load_base_up p) true = Some (d, Dir k ents).
+Proof. exact load_base_kernel. Qed.
+Print Assumptions C10_load_base_is_model_dir.
 
+(* Why the base directory must never be empty: an empty base_dir (the default of programmatic construction)
+   makes the check accept every location.  (Before fixes f7de2c5 / b3a8816 load() left it empty for bare file
+   names / for tensors inside model-local functions; witnesses kept in corpus/C10.) *)
 Theorem C10_empty_base_unchecked :
   forall kf fs cwd pf loc, check kf fs cwd pf [] loc = Some (Ok tt).
 Proof. exact empty_base_unchecked. Qed.
@@ -134,6 +157,13 @@ Example C10_example_escapes_raise :
   check 45 ex_fs [] 100 ex_base [47; 111; 47; 115]%N = Some (Raise ValueError) /\                  (* /o/s *)
   check 45 ex_fs [] 100 ex_base [46; 46; 47; 109; 120; 47; 119]%N = Some (Raise ValueError) /\     (* ../mx/w *)
   check 45 ex_fs [] 100 ex_base [104]%N = Some (Raise ValueError).                                 (* hard link *)
+Proof. vm_compute. repeat split. Qed.
+
+Example C10_example_load :
+  load_base [109; 46; 111]%N = s_dot /\                                  (* "m.o" -> "." *)
+  load_base [108; 47; 46; 46; 47; 109]%N = [108; 47; 46; 46]%N /\        (* "l/../m" -> "l/.." *)
+  kstr 45 ex_fs [[109]%N] (load_base_up [119]%N) true =                  (* bare "w" with cwd /m -> /m *)
+    kstr 45 ex_fs [] (parse ex_base) true.
 Proof. vm_compute. repeat split. Qed.
 
 Example C10_example_history :
